@@ -261,9 +261,9 @@ class World:
                 deg[y] += 1
         if m.is_stereo:
             nb = m.neighbours()
-            for a in ids[::7]:
-                if len(nb[a]) == 4:
-                    lig = sorted(nb[a])
+            for a in ids[::2]:
+                if len(nb[a]) in (3, 4):
+                    lig = sorted(nb[a]) + [None] * (4 - len(nb[a]))
                     rng.shuffle(lig)
                     m.astereo[a] = ("Tetrahedral", (a, *lig), rng.choice((1, -1)))
         real = None
@@ -618,7 +618,7 @@ class World:
                     continue
                 if need and x.kind != need:
                     return None
-                if x.kind not in ("MG", "SMG") or not x.buildable():
+                if x.kind not in ("MG", "SMG"):
                     return None
             types = lambda x: {a: v["atom_type"] for a, v in x.atoms.items()}
             if types(R_) != types(P_) or not R_.atoms:
